@@ -80,6 +80,39 @@ func rule016(r *core.Run, prop string) {
 								}
 							}
 						}
+					case *ssa.Send:
+						if x.X == v {
+							bad, badAt = "sent on a channel (handed to a pool or another goroutine that may refill it while readers still hold it)", x
+						}
+					case *ssa.Select:
+						for _, st := range x.States {
+							if st.Send == v {
+								bad, badAt = "sent on a channel (handed to a pool or another goroutine that may refill it while readers still hold it)", x
+							}
+						}
+					case *ssa.MapUpdate:
+						if x.Value == v {
+							bad, badAt = "kept in a map for later reuse", x
+						}
+					case *ssa.Store:
+						// kept in a package-level variable or in a field that is not a stored-body field (a free list)
+						if x.Val == v {
+							switch a := x.Addr.(type) {
+							case *ssa.Global:
+								bad, badAt = "kept in a package-level variable for later reuse", x
+							case *ssa.FieldAddr:
+								fnm := p.FieldName(a)
+								okField := strings.HasPrefix(fnm, "gofakes3.Object.") || strings.HasPrefix(fnm, "gofakes3.Content.") || strings.HasPrefix(fnm, "s3io.") || strings.HasPrefix(fnm, "bytes.")
+								for _, sf := range storedBodyFields {
+									if sf == fnm {
+										okField = true
+									}
+								}
+								if !okField && (strings.Contains(fnm, "Backend.") || strings.Contains(fnm, "uploader.")) {
+									bad, badAt = "kept in the backend's own state ("+fnm+") for later reuse", x
+								}
+							}
+						}
 					case ssa.CallInstruction:
 						name := p.CalleeName(x)
 						args := x.Common().Args
@@ -240,11 +273,28 @@ func rule011(r *core.Run) {
 		if mi, ok := in3.(*ssa.MakeInterface); ok {
 			in3 = mi.X
 		}
-		s := r.P.SliceOf(etagSet.Call.Args[2], core.SliceOpts{Depth: -1})
+		s := r.P.SliceOf(etagSet.Call.Args[2], core.SliceOpts{Depth: 2})
 		sameReader := false
 		for c := range s.Calls {
-			if core.StaticCallee(c) == sumFn && c.Common().Args[0] == in3 {
+			if core.StaticCallee(c) != sumFn {
+				continue
+			}
+			recv := c.Common().Args[0]
+			if recv == in3 {
 				sameReader = true
+			}
+			// Sum() inside a formatting helper: the helper's parameter must be bound to that reader here
+			if p, isParam := recv.(*ssa.Parameter); isParam && p.Parent() != fn {
+				for _, site := range r.P.StaticCallers(p.Parent()) {
+					if site.Parent() != fn {
+						continue
+					}
+					for i, q := range p.Parent().Params {
+						if q == p && i < len(site.Common().Args) && site.Common().Args[i] == in3 {
+							sameReader = true
+						}
+					}
+				}
 			}
 		}
 		r.Check(sameReader && s.Has("call:encoding/hex.EncodeToString"), "R01.1", key(hn, "ETag = hex(Sum of the reader given to PutObject)"), pos(r, etagSet),
@@ -485,12 +535,7 @@ func rule012(r *core.Run) {
 			if c, ok := in.(*ssa.Call); ok && r.P.CalleeName(c) == "s3afero.(*metaStore).saveMeta" {
 				ms := r.P.SliceOf(c.Call.Args[1], core.SliceOpts{Depth: -1})
 				bp := paramNamed(fn, "bucketName")
-				if ms.Has("call:s3afero.(*metaStore).metaPath") && ms.HasValue(op) && ms.HasValue(bp) {
-					for ret, ev := range returnedErrors(fn) {
-						if definitelyNil(r, ev) && !core.CheckedBefore(c, ret) {
-							return
-						}
-					}
+				if ms.Has("call:s3afero.(*metaStore).metaPath") && ms.HasValue(op) && ms.HasValue(bp) && successOnlyAfter(r, fn, []*ssa.Call{c}) {
 					saved = true
 				}
 			}
